@@ -4,6 +4,7 @@ use crate::explore::Out;
 use crate::io::*;
 use vek::vec::repr_c::{Vec2, Vec3};
 use vek::geom::repr_c::{Aabr, Aabb, Rect, Rect3};
+use crate::symint::{SymS, SymU};
 
 macro_rules! aab { ($reg:expr, $p:expr, $A:ty, $V:ty, $R:ty, $d:expr, $into_rect:ident, $contains_aab:ident, $collides:ident, $colvec:ident) => {{
     let d = $d; let n = 2 * d; let p = $p;
@@ -62,4 +63,18 @@ pub fn register(reg: &mut Reg) {
     split!(reg, "rect", Rect<T, T>, 4, split_at_x); split!(reg, "rect", Rect<T, T>, 4, split_at_y);
     split!(reg, "rect3", Rect3<T, T>, 6, split_at_x); split!(reg, "rect3", Rect3<T, T>, 6, split_at_y); split!(reg, "rect3", Rect3<T, T>, 6, split_at_z);
     ep!(reg, "aabr_from_aabb".to_string(), 6, |a| { let b: Aabb<T> = Flat::rd(a); Out::of(Aabr::<T>::from(b).flat()) });
+    reg_int(reg);
+}
+/// integer element types: the methods that divide (centre, half size) under machine-integer semantics
+fn reg_int(reg: &mut Reg) {
+    ep_int!(reg, "s_aabr_center".to_string(), 4, true, SymS, i8, |a| { let b: Aabr<T> = Flat::rd(&a); b.center().flat() });
+    ep_int!(reg, "u_aabr_center".to_string(), 4, false, SymU, u8, |a| { let b: Aabr<T> = Flat::rd(&a); b.center().flat() });
+    ep_int!(reg, "s_aabr_half_size".to_string(), 4, true, SymS, i8, |a| { let b: Aabr<T> = Flat::rd(&a); b.half_size().flat() });
+    ep_int!(reg, "u_aabr_half_size".to_string(), 4, false, SymU, u8, |a| { let b: Aabr<T> = Flat::rd(&a); b.half_size().flat() });
+    ep_int!(reg, "s_aabb_center".to_string(), 6, true, SymS, i8, |a| { let b: Aabb<T> = Flat::rd(&a); b.center().flat() });
+    ep_int!(reg, "u_aabb_center".to_string(), 6, false, SymU, u8, |a| { let b: Aabb<T> = Flat::rd(&a); b.center().flat() });
+    ep_int!(reg, "s_aabb_half_size".to_string(), 6, true, SymS, i8, |a| { let b: Aabb<T> = Flat::rd(&a); b.half_size().flat() });
+    ep_int!(reg, "u_aabb_half_size".to_string(), 6, false, SymU, u8, |a| { let b: Aabb<T> = Flat::rd(&a); b.half_size().flat() });
+    ep_int!(reg, "s_rect_center".to_string(), 4, true, SymS, i8, |a| { let b: Rect<T, T> = Flat::rd(&a); b.center().flat() });
+    ep_int!(reg, "s_rect3_center".to_string(), 6, true, SymS, i8, |a| { let b: Rect3<T, T> = Flat::rd(&a); b.center().flat() });
 }
